@@ -1,11 +1,11 @@
 ENGINES = [
- {"name": "evysim-L1", "path": "harness/vdrv", "serves_properties": ["C08", "C14", "C15"], "kind_free_text": "deterministic simulation: real lexer/parser/evaluator under a simulated platform (effects, scripted input, virtual clock, numbered fault points), seeded scheduler, explicit JSON scenarios as replay files, ddmin minimiser, worker OS processes"},
+ {"name": "evysim-L1", "path": "harness/vdrv", "serves_properties": ["C02", "C08", "C14", "C15"], "kind_free_text": "deterministic simulation: real lexer/parser/evaluator under a simulated platform (effects, scripted input, virtual clock, numbered fault points), seeded scheduler, explicit JSON scenarios as replay files, ddmin minimiser, worker OS processes"},
  {"name": "xform", "path": "xform", "serves_properties": ["C14"], "kind_free_text": "go/packages source rewriter that inserts the seams into a scratch copy of /repo"},
 ]
-ENGINES.append({"name": "simos", "path": "harness/vsim/simos", "serves_properties": ["C18"], "kind_free_text": "fault- and crash-injecting file/process seam over a real directory: numbered decision points before, inside and after every os call of package main and pkg/cli; strace-based conformance layer on the real binary"})
+ENGINES.append({"name": "simos", "path": "harness/vsim/simos", "serves_properties": ["C02", "C18"], "kind_free_text": "fault- and crash-injecting file/process seam over a real directory: numbered decision points before, inside and after every os call of package main and pkg/cli; strace-based conformance layer on the real binary"})
 ENGINES.append({"name": "sealfault", "path": "harness/vdrvlearn", "serves_properties": ["C20"], "kind_free_text": "stored-value corruption enumerator and entropy-fault injector around learn.Encrypt/Decrypt/Seal/Unseal/Verify (real code, real RSA/AES), with generated question files for the verification clause"})
-NOTES = "Fix commits in /repo: see known_findings.json. Properties whose check is not built yet are listed under not_applicable with reason 'check under construction'."
-PENDING.update({p: "check under construction in this session (claimed in DESIGN.md; will move to checks once its driver is committed)" for p in ["C02"]})
+NOTES = "Fix commits in /repo: see known_findings.json. "
+
 claim("C14", "fault_enumeration",
  "For every program of the workload the stop flag is raised inside every fault point of its run (each Yield, Sleep, Read poll and idle moment; exhaustively for runs up to the tier's limit, sampled beyond) and the interrupted run is compared with the uninterrupted one: result is 'stopped', nothing is evaluated and no effect happens after the raise (only the test summary), effects before it are a prefix. Probe programs with statically known trip/call counts decide 'yields at least once per iteration and call'. Sampling over programs, exhaustive over crash points of each sampled program.",
  "The platform raises Stopped only while it has control (Yield, Sleep, blocked Read, idle). SimPlatform is a stub of the browser; the event loop of pkg/wasm is mirrored by the driver at this level.",
@@ -35,3 +35,9 @@ claim("C20", "fault_enumeration",
  "Pre-generated RSA fixture keys (crypto/rsa key generation cannot be made deterministic). The verification clause has no fault dimension of its own; it is enumerated in the fault-free configuration inside the same pipeline.",
  "stored-value corruption enumeration and entropy-fault injection with a reject-or-original oracle; subset enumeration for verification",
  "DESIGN.md §5.6", "sealfault")
+
+claim("C02", "exploration",
+ "Scoped claim: the part of 'accepted programs never go wrong' that arrives through the platform boundary. Seeded search over simulated platform behaviours: accepted programs (generated, corpus) run under the simulated platform with input scripts that may be too short, event histories with adversarial payloads (NaN, infinities, -0, huge, empty and non-ASCII strings) and a stop at a seeded fault point; and the real `evy run` command runs on the real terminal platform with stdin delivered in seeded chunks that ends after any byte (mid-line, before the first byte, CRLF) and a stdout that may fail. Monitor: allowed end class only, no internal error, no Go panic, surviving process, 'stopped' only after a stop, declared types for values that crossed the boundary.",
+ "Type soundness over all programs as a pure function of the program text is NOT decided here (that needs an independent semantics oracle; see DESIGN.md §5.1). Unregistered events and wrong-arity payloads are not legal platform behaviour and are not injected.",
+ "deterministic simulation of platform behaviours (input end, chunking, payloads, stop) with an outcome-class monitor",
+ "DESIGN.md §5.1", "evysim-L1")
